@@ -44,6 +44,27 @@ CLAIMED = {
              'operands are not claimed.',
         technique='Lean 4 proof (list induction, commutative-ring algebra) + generated constants + model/implementation correspondence check',
         design_ref='DESIGN.md 4/C12'),
+    'C13': dict(
+        text='Theorems about the signomial model instantiated at affine-form coefficients (Lin): substitution of Variable '
+             'values commutes with +, -, *, Signomial.sum, upcasting and without_zeros at the level of coefficient '
+             'functions; the zero test used for dropping terms takes no value store as input (history independence is '
+             'structural) and accepts only the identically-zero form. Tied to the code by random trees mixing numeric and '
+             'Expression-coefficient operands evaluated under adversarial stored Variable values (0, NaN, leftovers), '
+             'compared at representation level. Substitute-then-compute reference confirms failures.',
+        note='coefficients are affine in ScalarVariables (no nonlinear atoms); assignments are rational; a ScalarExpression '
+             'on the LEFT of a Signomial operator is rejected by coniclifts itself and is not claimed.',
+        technique='Lean 4 proof (homomorphism lemmas over the Lin model) + model/implementation correspondence check',
+        design_ref='DESIGN.md 4/C13'),
+    'C16': dict(
+        text='Theorems about a Lean model of row_correspondence / relative_coeff_vector / moment_reduction_array: tolerance '
+             'matching is exact matching on 7-decimal rows, coefficients are placed row by row (hence order independent), '
+             'the moment-reduction identity holds for every coefficient vector and every character, a missing exponent is an '
+             'error. The tolerance constant is regenerated from the source and pinned by a theorem. Tied to the code by '
+             'random and permuted triples (Variable and numeric multipliers), exact diff; exact expansion of s*h as oracle.',
+        note='rows of g absent from alpha contribute nothing in relative_coeff_vector (adjudicated as intended: sig_solrec '
+             'relies on it; see DESIGN F15).',
+        technique='Lean 4 proof + generated constant + model/implementation correspondence check',
+        design_ref='DESIGN.md 4/C16'),
 }
 
 NOT_YET = 'check not built yet in this session (planned, see DESIGN.md section 6); not claimed until its theorems and correspondence exist'
